@@ -432,6 +432,18 @@ def emit_tla(vocab, path):
             if "default" in e:
                 dflt.append("<<%s, %s>>" % (tla_str(ty), tla_str(k)))
     L.append("HasDefault == " + tla_set(dflt))
+    # Draft-4 effective numeric bounds of plain number slots (a numeric exclusiveMinimum alone is not a Draft-4 bound)
+    hmin, hmax = [], []
+    for ty, td in s["types"].items():
+        for k, e in td["props"].items():
+            alts = e["alts"]
+            if len(alts) == 1 and alts[0]["kind"] in ("int", "num") and "via" not in alts[0]:
+                if "minimum" in alts[0]:
+                    hmin.append("<<%s, %s>>" % (tla_str(ty), tla_str(k)))
+                if "maximum" in alts[0]:
+                    hmax.append("<<%s, %s>>" % (tla_str(ty), tla_str(k)))
+    L.append("HasMin == " + tla_set(hmin))
+    L.append("HasMax == " + tla_set(hmax))
     L.append("====")
     os.makedirs(os.path.dirname(path), exist_ok=True)
     with open(path, "w") as f:
